@@ -1,37 +1,67 @@
 #!/venv/bin/python
 """Re-evaluates every stored seeded change with the current rules (overlay,
-never touching /repo), updates meta.json 'checks', prints a markdown table."""
+never touching /repo), updates meta.json 'checks', writes the markdown table
+/verif/seeded/TABLE.md.   usage: tools/seeded_table.py [-j N]"""
 import json, os, sys
+from multiprocessing import Pool
 from pathlib import Path
 sys.path.insert(0, str(Path(__file__).resolve().parent.parent))
-from tools.try_patch import overlay_from_patch
-from vsa.__main__ import run_check
+from vsa.selftest import overlay_from_patch
+from vsa.__main__ import run_check, parse_tree, clear_caches
 from vsa.rules import RULES
 
 root = Path('/verif/seeded')
-base = {p: {v.key() for v in run_check(p, 'quick', write=False, quiet=True).violations} for p in sorted(RULES)}
-rows = []
-for d in sorted(root.iterdir()):
+BASE = {}
+
+
+def work(d):
+    d = Path(d)
     m = json.loads((d / 'meta.json').read_text())
     ov = overlay_from_patch(d / 'patch.diff')
+    clear_caches()
+    rp = parse_tree(overlay=ov)
     fired = {}
     for p in sorted(RULES):
-        c = run_check(p, 'quick', overlay=ov, write=False, quiet=True)
-        new = sorted({v.rule for v in c.violations if v.key() not in base[p]})
+        c = run_check(p, 'quick', write=False, quiet=True, repo=rp)
+        new = sorted({v.rule for v in c.violations if v.key() not in BASE[p]})
         if new:
             fired[p] = new
         if c.status == 2:
             fired[p] = ['ANALYSIS-ERROR']
     own = m['breaks_property']
-    m['checks'] = {'fired': fired, 'own_property_check_fires': own in fired}
+    m['checks'] = {'fired': fired, 'own_property_check_fires': own in fired
+                   and fired[own] != ['ANALYSIS-ERROR']}
     (d / 'meta.json').write_text(json.dumps(m, indent=1))
     others = ', '.join('%s %s' % (p, '/'.join(r)) for p, r in fired.items() if p != own)
-    rows.append('| %s | %s | %s | %s | %s |' % (
-        m['id'], own, m['needs_to_manifest'][:110],
-        ('**' + '/'.join(fired[own]) + '**') if own in fired else 'MISSED', others or '-'))
-print('| seeded change | property | needs, in order to manifest | caught by its own check (rule) | also caught by |')
-print('|---|---|---|---|---|')
-print('\n'.join(rows))
-print('\n%d seeded changes, %d caught by the check of the property they break' % (
-    len(rows), sum('MISSED' not in r for r in rows)))
-sys.stdout.flush(); os._exit(0)
+    needs = m['needs_to_manifest']
+    if ' NEEDS: ' in needs:
+        needs = needs.split(' NEEDS: ', 1)[1]
+    return '| %s | %s | %s | %s | %s |' % (
+        m['id'], own, needs[:110].replace('|', '/'),
+        ('**' + '/'.join(fired[own]) + '**') if m['checks']['own_property_check_fires'] else 'MISSED', others or '-')
+
+
+def main():
+    j = int(sys.argv[sys.argv.index('-j') + 1]) if '-j' in sys.argv else 8
+    r0 = parse_tree()
+    for p in sorted(RULES):
+        BASE[p] = {v.key() for v in run_check(p, 'quick', write=False, quiet=True, repo=r0).violations}
+    dirs = [str(d) for d in sorted(root.iterdir()) if (d / 'meta.json').exists()]
+    with Pool(j) as pool:
+        rows = pool.map(work, dirs, chunksize=2)
+    def key(r):
+        i = r.split('|')[1].strip()
+        p, s = i.split('-s')
+        return (p, int(s))
+    rows.sort(key=key)
+    out = ['| seeded change | property | needs, in order to manifest | caught by its own check (rule) | also caught by |',
+           '|---|---|---|---|---|'] + rows
+    out.append('\n%d seeded changes, %d caught by the check of the property they break' % (
+        len(rows), sum('MISSED' not in r for r in rows)))
+    (root / 'TABLE.md').write_text('\n'.join(out) + '\n')
+    print(out[-1])
+
+
+if __name__ == '__main__':
+    main()
+    sys.stdout.flush(); os._exit(0)
